@@ -34,8 +34,22 @@ ROT_UNITS = [
     R("rot_avl_left_right", "h_double", [], "pp_tree_avl_rotate_left_right", 5),
     R("rot_avl_right_left", "h_double", ["MIRROR"], "pp_tree_avl_rotate_right_left", 5),
 ]
+# AVL retrace step lemmas: one step of the real balance loops on a symbolic window, subtrees of any height (C13 only)
+STEP_UNITS = [
+    R("avl_insert_step_left", "h_avl_insert_step", [], "pp_tree_avl_balance_insert", 6),
+    R("avl_insert_step_right", "h_avl_insert_step", ["MIRROR"], "pp_tree_avl_balance_insert", 6),
+]
+# removal: case 0 (no rotation) only.  The rotation cases (-DREMCASE=1, 2) exist in the harness; case 1 held once (342 s, > 20 GB of solver memory), case 2 was still
+# running at 20 GB -- too heavy to run beside the other units, so they are not registered (DESIGN.md section 0A); the rotations themselves are covered by rot_avl_*.
+for _c, _can in ((0, 4),):
+    STEP_UNITS.append(R("avl_remove_step_left_case%d" % _c, "h_avl_remove_step", ["REMCASE=%d" % _c], "pp_tree_avl_balance_remove", _can))
+    STEP_UNITS.append(R("avl_remove_step_right_case%d" % _c, "h_avl_remove_step", ["REMCASE=%d" % _c, "MIRROR"], "pp_tree_avl_balance_remove", _can))
+
 # two-step histories (observer, update, observer on the same tree object): state an operation leaves behind for the next one
 SEQ_UNITS = [T("%s_sequence" % tr, "h_sequence", tr, canaries=3, functions=["p_tree_lookup", "p_tree_insert", "p_tree_remove"] if tr == "bst" else [],
                defines_quick=["H=2"], defines_thorough=["H=3"],
                bound={"quick": "any well-formed %s tree of height <= 2 (<= 3 nodes), lookup / insert-or-remove / lookup with any two keys" % tr, "thorough": "height <= 3 (<= 7 nodes), same three-call history"})
              for tr in ("bst", "rb", "avl")]
+for _u in STEP_UNITS:   # the real loop runs at most twice here (asserted); the other loops are the fixed-size ones of the window evaluator
+    _u["cbmc_flags"] = ["--object-bits", "10", "--unwind", "9", "--unwindset", ("pp_tree_avl_balance_insert.0:3" if "insert" in _u["id"] else "pp_tree_avl_balance_remove.0:3"), "--unwinding-assertions"]
+    _u["mem_gb"] = 16; _u["timeout"] = 900
